@@ -207,7 +207,7 @@ def s_parse(vc):
     s = scheme + (" " * n_sp) + ascii_str(vc, cred)
     out = vc.call(PA + "parse_http_basic_auth", s)
     # the statement: every pair is accepted "including passwords containing ':'"  (KF-C20-1: split(":") into exactly two parts)
-    vc.ensure_kf("accepts_wellformed", out.ok, "KF-C20-1", colon_in_password)
+    vc.ensure("accepts_wellformed", out.ok)  # was recorded finding KF-C20-1, repaired in /repo
     if not out.ok:
         vc.ensure("rejects_only_with_ValueError", out.raised_type() is ValueError)
         return
@@ -482,7 +482,7 @@ def s_requestheaders(vc):
         # statement: "the credential header is removed before the request is forwarded" — also on a connection that was
         # authenticated by CONNECT (KF-C20-2: the header of a later request in the tunnel is left in place)
         names = [lower_name(vc, f) for f in header_fields(vc, req)]
-        vc.ensure_kf("authenticated_connection.credential_header_removed", b"proxy-authorization" not in names, "KF-C20-2", True)
+        vc.ensure("authenticated_connection.credential_header_removed", b"proxy-authorization" not in names)  # was recorded finding KF-C20-2, repaired in /repo
         vc.ensure("authenticated_connection.other_headers_untouched", [f for f in header_fields(vc, req) if lower_name(vc, f) != b"proxy-authorization"] == [] or
                   vc.eq(tuple(f for f in header_fields(vc, req) if lower_name(vc, f) != b"proxy-authorization"), ((b"Host", b"example.com"),)))
     else:
